@@ -143,8 +143,36 @@ class C12Check(DCheck):
         knobs = swarm_knobs(ch, event_sourcing=True)
         opts = swarm_opts(ch)
         info: dict[str, Any] = {"opts": dict(opts.__dict__), "knobs": knobs.to_dict()}
-        run = run_exec(prog, knobs, ch, opts, max_steps=1500 + 3 * knobs.max_stage_wait_retries,
-                       post=lambda ex, fs: post(ex, fs, ch))
+        # a quarter of the runs: an operator cancel at a seeded delivery step (the "cancel" step of the property) - the
+        # request may be overtaken by a failure that is already on its way, whatever ends the workflow is what the log
+        # must say
+        st = None
+        cancel = ch.flip("c12.cancel", 0.25)
+        if cancel:
+            at = ch.pick("c12.cancel.at", 50)
+            # ... or right when a terminally failing task has run and its failure is still travelling through the queue
+            on_fail = bool(ch.pick("c12.cancel.onfail", 2))
+
+            def st(ex: Any) -> None:
+                n = [0]
+                fired = [False]
+
+                def between(eng: Any) -> None:
+                    hit = n[0] == at
+                    if on_fail:
+                        hit = (not fired[0]) and any(e["result"] in ("fail_terminal", "exc") for e in ex.world.ledger)
+                    if hit:
+                        fired[0] = True
+                        with ex.world.as_client("client-cancel"):
+                            wf = ex.world.store.retrieve(ex.wf_id)
+                            ex.world.orchestrator.cancel(wf, "sim", "c12")
+                        ex.world.fault("cancel_request")
+                    n[0] += 1
+
+                ex.eng.between = between
+
+        run = run_exec(prog, knobs, ch, opts, setup=st, max_steps=1500 + 3 * knobs.max_stage_wait_retries,
+                       cancel_requested=cancel, post=lambda ex, fs: post(ex, fs, ch))
         info["stats"] = {"events": (run.get("post") or {}).get("n_events", 0),
                          "prefixes_checked": (run.get("post") or {}).get("prefixes_checked", 0),
                          "snapshots_checked": (run.get("post") or {}).get("snapshots_checked", 0)}
